@@ -13,7 +13,7 @@ import values_h as V
 from common import coq_failing, rng_for, CoqError, g_list, g_bool
 
 DTYPES = [('lv_universe', 'V1', ['a', 'b']), ('lv_universe', 'V2', ['x']), ('lv_universe', 'V', ['x']),
-          ('lv_universe', 'VV', ['x']), ('lv_universe', 'VPost', ['x'])]
+          ('lv_universe', 'VV', ['x']), ('lv_universe', 'VPost', ['x']), ('lv_universe', 'V0', []), ('lv_universe', 'VInh', ['a', 'b', 'c'])]
 
 
 def gen_task(rng, depth=0):
@@ -41,7 +41,7 @@ def gen_task(rng, depth=0):
 def gen_chain(rng):
     """The same task type repeated over several consecutive nesting levels (so that whole levels add nothing new to the
     structure) with something new — another type, a collection-valued occurrence — only at the bottom."""
-    mod, name, fields = rng.choice(DTYPES)
+    mod, name, fields = rng.choice([d for d in DTYPES if d[2]])
     scalar = lambda: rng.choice(V.SCALAR_POOL[:14])
     bottom = rng.choice([lambda: gen_task(rng, 3), lambda: ['list', [gen_task(rng, 3), gen_task(rng, 3)]],
                          lambda: ['dict', False, [[['str', 'k'], gen_task(rng, 3)]]], scalar])()
